@@ -253,11 +253,11 @@ class M:
             return False
         if env.get("!bare") == nm and nm not in getattr(self.fn, "_renames", {}):
             return False      # a bare-name pattern would bind to anything: resolved by the caller instead
-        if nm in self._known_names():
-            return False
         committed = getattr(self.fn, "_renames", {})
         if nm in committed:
             return committed[nm] == e["name"]
+        if nm in self._known_names():
+            return False
         if e["name"] in committed.values():
             return False
         key = "~" + nm
